@@ -288,10 +288,28 @@ func (e *Env) ident(name string) TV {
 	// loop variables via SSA names
 	if e.frame != nil {
 		if tv, ok := e.ssaVar(name); ok {
+			e.x.eng.noteLocalUse(e.frame.fn, name, tv.T)
 			return tv
 		}
 		if tv, ok := e.phantomLocal(e.frame.fn, name); ok {
+			e.x.eng.noteLocalUse(e.frame.fn, name, tv.T)
 			return tv
+		}
+		// the contract names a local variable this function no longer has: if the unchanged tree had a local of
+		// that name and exactly one local of the recorded type is not named by the contract, the variable was
+		// renamed — the clause is then evaluated (and must be proved) about that variable
+		if alt := e.x.eng.renamedLocal(e.frame.fn, e.x.con, name); alt != "" {
+			if tv, ok := e.vars[alt]; ok {
+				e.x.noteLib("contract names local " + name + ", which does not exist; the only unnamed local of its recorded type, " + alt + ", is used instead")
+				return tv
+			}
+			if tv, ok := e.ssaVar(alt); ok {
+				e.x.noteLib("contract names local " + name + ", which does not exist; the only unnamed local of its recorded type, " + alt + ", is used instead")
+				return tv
+			}
+			if tv, ok := e.phantomLocal(e.frame.fn, alt); ok {
+				return tv
+			}
 		}
 	}
 	// a callee's local variable, seen from a call site: unknown
